@@ -21,6 +21,13 @@ func NewTPair(cc, sc *tlcp.Config) *TPair {
 	return &TPair{Cli: tlcp.Client(cli, cc), Srv: tlcp.Server(srv, sc), CliRaw: cli, SrvRaw: srv, C2S: c2s, S2C: s2c}
 }
 
+// NewTPairNamed is NewTPair with the server reachable under the given address string.
+func NewTPairNamed(cc, sc *tlcp.Config, srvAddr string) *TPair {
+	cli, srv, c2s, s2c := StreamPair()
+	cli.Peer = srvAddr
+	return &TPair{Cli: tlcp.Client(cli, cc), Srv: tlcp.Server(srv, sc), CliRaw: cli, SrvRaw: srv, C2S: c2s, S2C: s2c}
+}
+
 // Handshake runs both handshakes to completion; a side that fails closes its transport.
 // hung reports that the watchdog had to intervene.
 func (p *TPair) Handshake(watchdog time.Duration) (cres, sres EPResult, hung bool) {
@@ -80,6 +87,17 @@ func vtimerFactory(n *VNet) func(time.Duration) *dtlcp.TimerHandle {
 // The configurations are used as given except for NewTimer, which is bound to the virtual clock.
 func NewDPair(cc, sc *dtlcp.Config) *DPair {
 	n := NewVNet()
+	cc.NewTimer = vtimerFactory(n)
+	sc.NewTimer = vtimerFactory(n)
+	return &DPair{Net: n,
+		Cli: dtlcp.Client(n.End(0), n.Addr(1), cc),
+		Srv: dtlcp.Server(n.End(1), n.Addr(0), sc)}
+}
+
+// NewDPairAddr is NewDPair with the server at the given address.
+func NewDPairAddr(cc, sc *dtlcp.Config, srvAddr string) *DPair {
+	n := NewVNet()
+	n.SetAddr(1, srvAddr)
 	cc.NewTimer = vtimerFactory(n)
 	sc.NewTimer = vtimerFactory(n)
 	return &DPair{Net: n,
